@@ -146,5 +146,4 @@ theorem run_n_le (K : Nat) : ∀ (ir : List Inst), WFs ir →
         · exact Or.inl h
         · exact absurd h (hin x hx).2
 
-#print axioms run_n_le
 end P.Alloc
